@@ -83,3 +83,17 @@ func VHarnessC15Unpickler() {
 		vReach("err")
 	}
 }
+
+// VHarnessC15RecordShape: a record whose stamp decodes to a value of the wrong shape (anything but
+// None or a dict) must surface as an error from the up-to-date check, never as a crash.
+func VHarnessC15RecordShape() {
+	olds := []starlark.Value{starlark.String("dawn"), starlark.MakeInt(int(vNondetU8("i"))), starlark.True, starlark.Tuple{starlark.None},
+		starlark.NewList(nil), starlark.Float(1.5), starlark.Bytes("x"), starlark.NewSet(0)}
+	news := []starlark.Value{starlark.NewDict(0), starlark.String("dawn")}
+	f := &function{oldEnv: olds[vParam("old")], newEnv: news[vParam("new")]}
+	eq, _, _, err := f.diffEnv()
+	vAssert(err != nil || !eq, "wrong-shaped-record-is-not-up-to-date")
+	if err != nil {
+		vReach("error")
+	}
+}
